@@ -326,6 +326,10 @@ func TestRequeuer(t *testing.T) {
 				if tp == "" {
 					return "", stderrors.New("no destination in metadata")
 				}
+				if tp == "by-retries" {
+					// a generator may look at anything in the consumed message, e.g. "after N requeues: dead letters"
+					return "retries-so-far=" + p.Message.Metadata.Get(requeuer.RetriesKey), nil
+				}
 				return tp, nil
 			},
 		}, watermill.NopLogger{})
@@ -350,7 +354,7 @@ func TestRequeuer(t *testing.T) {
 			hasDest := rapid.IntRange(0, 5).Draw(t, "hasDest") != 0
 			delete(s.Meta, "dest")
 			if hasDest {
-				s.Meta["dest"] = rapid.SampledFrom([]string{"orders", "a/b", "poison"}).Draw(t, "dest") // the destination Pub/Sub is another system: its topic may be named like the one the requeuer reads
+				s.Meta["dest"] = rapid.SampledFrom([]string{"orders", "a/b", "poison", "by-retries"}).Draw(t, "dest") // the destination Pub/Sub is another system: its topic may be named like the one the requeuer reads
 			}
 			start := len(d.Calls())
 			if cancelMode {
@@ -408,8 +412,12 @@ func TestRequeuer(t *testing.T) {
 			}
 			want.Meta[requeuer.RetriesKey] = strconv.Itoa(wantRetries)
 			for k, pc := range calls {
-				if pc.Topic != s.Meta["dest"] {
-					t.Fatalf("violation: requeued to %q, generator says %q", pc.Topic, s.Meta["dest"])
+				wantTopic := s.Meta["dest"]
+				if wantTopic == "by-retries" {
+					wantTopic = "retries-so-far=" + s.Meta[requeuer.RetriesKey] // computed from the message as it was consumed
+				}
+				if pc.Topic != wantTopic {
+					t.Fatalf("violation: requeued to %q, the generator computes %q from the consumed message", pc.Topic, wantTopic)
 				}
 				if len(pc.Snaps) != 1 || !pc.Snaps[0].Equal(want) {
 					t.Fatalf("violation: requeued message differs (retries in=%q): got %+v want %+v", retriesIn, pc.Snaps, want)
